@@ -226,6 +226,10 @@ def greedy_search(ctx, case) -> None:
 
 
 def run(ctx) -> None:
+    if ctx.tier == "thorough" and ctx.shard == ctx.nshards - 1:
+        # the repository's own tests as one more workload for the contracts (vmon/contracts.py)
+        from ..contracts_suite import run_repo_tests
+        run_repo_tests(ctx, ['incomplete_cooperative/tests/test_solvers.py'], 'solvers,env')
     rng = ctx.rng
     quick = ctx.tier == "quick"
     # n = 3: every reachable state through every order
@@ -267,6 +271,10 @@ def run(ctx) -> None:
 
 
 def replay(ctx, case) -> None:
+    if case.get("kind") == "repo-tests":
+        from ..contracts_suite import run_repo_tests
+        run_repo_tests(ctx, case["files"], case["contracts"])
+        return
     if "samples" in case:
         greedy_search(ctx, case)
     else:
